@@ -114,6 +114,7 @@ fn acct_plans(prop: &'static str, thorough: bool) -> Vec<Plan> {
         o.stake_to_staker = true;
         o.recover_forced = true;
         o.reply_faults = true;
+        o.oracle_faults = prop == "C15";
         let mut sc = mk(&format!("acct-{}-{}", prop, k.name), vec![prop], seeds, Box::new(move |s| std_menu(s, &o)));
         sc.goal = Some(Box::new(|pre, a, ap, post| {
             let mut g = vec![];
@@ -140,6 +141,12 @@ fn acct_plans(prop: &'static str, thorough: bool) -> Vec<Plan> {
             // removed must succeed / fail alike, have identical effects, and post nothing
             sc.extra_step = Some(Box::new(|pre, a, ap, post| {
                 let mut v = vec![];
+                if pre.w.ibc.reply_fault == 3 || matches!(a, Act::ReplyFault { .. }) {
+                    // a rejecting oracle: the transaction that has to post fails as a whole (the statement asks
+                    // for the post, not for progress without it); there is nothing to compare with the twin.
+                    // What must not happen is judged by the step monitor: totals changed and nothing posted.
+                    return v;
+                }
                 let mut t = pre.clone();
                 strip_oracle(&mut t);
                 let apt = t.apply(a);
